@@ -101,6 +101,10 @@ class SMMapSetMeta:
             elif s[0] == "#FGCHANGES":
                 self.fg_changes = s[1].strip()
 
+        # A file without #OFFSET starts its first beat at 0
+        if self.offset is None:
+            self.offset = 0.0
+
         # Tags carry no order: the stops need the tempo list and the offset,
         # wherever their tags are in the file
         if stop_tokens is not None:
